@@ -26,6 +26,8 @@ def observe_lines():
         out.append("lastcas " + c)
         out.append("keys " + c)
     out.append("expstate")      # pending expirations are re-armed by the reopen
+    out.append("ddocs c0")      # design documents survive, whole
+    out.append("ddocs c1")
     return out
 
 
@@ -70,7 +72,7 @@ def model_after(prefix, obs):
 
 def run(tier, seed, log):
     thorough = tier == "thorough"
-    histories = 6 if thorough else 2
+    histories = 6 if thorough else 3
     length = 14 if thorough else 10
     cov = {"crash_points_tried": 0, "kill_sites": {}, "histories": 0, "applied_entirely": 0, "not_applied": 0, "after_ack": 0}
     viols = []
@@ -80,7 +82,15 @@ def run(tier, seed, log):
     with open(obs_path, "w") as f:
         f.write("\n".join(obs) + "\n")
     for h in range(histories):
-        ops = gen_history(seed * 100 + h, length, "kv" if h % 2 == 0 else "expiry")
+        prof = ("kv", "expiry", "view")[h % 3]
+        if prof == "view":
+            # design documents: created, replaced by a different definition, replaced by an equal one, deleted - with writes in between
+            v = lambda k, b: 'set c0 %s exp=0 raw=0 v=%s' % (k, b)
+            ops = ["putddoc c0 dd0 v.v0=0: v.v1=1:_count", v("k0", '{"a":1}'), "view c0 dd0 v0", "putddoc c0 dd0 v.v0=2:_sum v.v2=3:",
+                   v("k1", '{"a":2,"tags":["t0"]}'), "putddoc c1 dd1 v.v0=1:", "putddoc c0 dd0 v.v0=2:_sum v.v2=3:", "view c0 dd0 v0 reduce=0",
+                   "putddoc c0 dd0 v.v0=1:", "delddoc c1 dd1", v("k0", '{"a":3}')]
+        else:
+            ops = gen_history(seed * 100 + h, length, prof)
         ops = [l for l in ops if l.split(" ")[0] not in ("now",)]
         ops_path = os.path.join(V.WORK, "crash_hist_%d.ops" % os.getpid())
         with open(ops_path, "w") as f:
@@ -92,7 +102,7 @@ def run(tier, seed, log):
             raise V.MachineryError("crash child did not complete the history (rc=%s, %d/%d acks)" % (rc, len(acks), len(ops)))
         cov["histories"] += 1
         points = list(range(1, total + 1))
-        if not thorough and len(points) > 30:
+        if not thorough and len(points) > 30 and prof != "view":
             step = len(points) / 30.0
             points = sorted({points[int(i * step)] for i in range(30)} | {1, total})
         for n in points:
